@@ -44,7 +44,7 @@ pub fn silence_panics() {
             "panic".to_string()
         };
         let loc = info.location().map(|l| format!(" at {}:{}", l.file(), l.line())).unwrap_or_default();
-        if std::thread::current().name() == Some("main") {
+        if std::thread::current().name() == Some("main") && GUARD_DEPTH.with(|d| d.get()) == 0 {
             // never the subject (it runs under `guarded` or on its own threads): a harness error
             eprintln!("MACHINERY: harness panic on the main thread: {}{}", msg, loc);
         }
@@ -62,8 +62,16 @@ pub fn last_panic_of(id: std::thread::ThreadId) -> Option<String> {
 }
 
 /// run the subject, turning an unwinding panic into Err(message)
+thread_local! {
+    /// > 0 while this thread runs the subject under `guarded` (a panic there is the subject's)
+    pub static GUARD_DEPTH: std::cell::Cell<u32> = std::cell::Cell::new(0);
+}
+
 pub fn guarded<T>(f: impl FnOnce() -> T) -> Result<T, String> {
-    match catch_unwind(AssertUnwindSafe(f)) {
+    GUARD_DEPTH.with(|d| d.set(d.get() + 1));
+    let r = catch_unwind(AssertUnwindSafe(f));
+    GUARD_DEPTH.with(|d| d.set(d.get().saturating_sub(1)));
+    match r {
         Ok(v) => Ok(v),
         Err(e) => {
             let msg = if let Some(s) = e.downcast_ref::<&str>() {
